@@ -484,6 +484,7 @@ def check(ctx: Ctx):
     from . import c03, c15
 
     c03._guarded(ctx, "R15.7", c15.check_globals)
+    c03._guarded(ctx, "R15.9", c15.check_metric_call_history)
 
 
 _A = "panoptica/metrics/assd.py"
